@@ -20,7 +20,7 @@ use crate::config::OutputStreamControl;
 use crate::config::TestCaseConfig;
 use crate::diff::Diff;
 use crate::diff::DiffTool;
-use crate::escaping::strip_colors_bytes;
+use crate::escaping::strip_ansi_sequences_bytes;
 use crate::expectation::Expectation;
 use crate::newline::replace_crlf;
 use crate::output::ExitStatus;
@@ -106,7 +106,7 @@ impl TestCase {
         };
 
         if self.config.strip_ansi_escaping == Some(true) {
-            Ok(Cow::Owned(strip_colors_bytes(&processed_output)?))
+            Ok(Cow::Owned(strip_ansi_sequences_bytes(&processed_output)))
         } else {
             Ok(processed_output)
         }
